@@ -56,6 +56,17 @@ def _sibling_ok(n):
     return True
 
 
+def _swappable(n):
+    """Do the first two members of a Label differ structurally (empty documents differ in a non-name field)?"""
+    keys = list(n["pairs"])
+    a, b = n["pairs"][keys[0]], n["pairs"][keys[1]]
+    try:
+        da, db = R.ref_doc(a, []), R.ref_doc(b, [])
+    except Exception:  # noqa: BLE001
+        return False
+    return bool(O.diff(O.canon(da), O.canon(db), 0.0, drop_names=True, exact=True))
+
+
 def mutate_spec(rng, sp):
     """Return (mutated spec, description, path) differing from sp in one structural parameter."""
     nodes = list(S.walk(sp))
@@ -134,6 +145,14 @@ def mutate_spec(rng, sp):
             if m["range"] in ("N2", "N3"):
                 m["f2"] = "y"
             desc = "Bag.range %s -> %s" % (n["range"], m["range"])
+        elif k in ("Label", "UntypedLabel") and len(n["pairs"]) >= 2 and rng.random() < 0.4 and _swappable(n):
+            # the same labels listed in the opposite order with the members exchanged: position by position the two
+            # operands match, label by label they do not
+            keys = list(n["pairs"])
+            k1, k2 = keys[0], keys[1]
+            rest = [(kk, n["pairs"][kk]) for kk in keys[2:]]
+            m["pairs"] = dict([(k2, n["pairs"][k1]), (k1, n["pairs"][k2])] + rest)
+            desc = k + " members exchanged under permuted labels"
         elif k in ("Label", "UntypedLabel"):
             keys = list(n["pairs"])
             if rng.random() < 0.5 or len(keys) == 1:
